@@ -69,6 +69,7 @@ class Execution:
         self.shim = shim
         self.drive = drive or desc.get("drive", "steps")
         self.violations = []
+        self.viol_counts = collections.Counter()
         self.notes = collections.Counter()
         self.flags = set()
         self.states = set()
@@ -81,7 +82,10 @@ class Execution:
         self.extra = collections.Counter()
 
     def violate(self, sig, msg, **detail):
-        self.violations.append({"sig": sig, "msg": msg, "detail": detail})
+        # every violation is counted; only the first few per signature keep their text (formatting is costly)
+        self.viol_counts[sig] += 1
+        if self.viol_counts[sig] <= 2:
+            self.violations.append({"sig": sig, "msg": msg() if callable(msg) else msg, "detail": detail})
 
     def note(self, what):
         self.notes[what] += 1
@@ -329,6 +333,10 @@ class Result:
                 v["detail"],
                 {"check": check_id, "unit": unit, "desc": x.desc, "dev": [list(p) for p in x.dev]},
             )
+        for sig, n in x.viol_counts.items():
+            extra_n = n - sum(1 for v in x.violations if v["sig"] == sig)
+            if extra_n > 0:
+                self.viol_counts[sig] += extra_n
         if sample and len(self.samples) < 3:
             self.samples.append(x.sample())
 
